@@ -155,7 +155,23 @@ func vpMaterializeTracked(rowBytes []byte) (map[string]any, error) {
 	if nondetBool() {
 		return nil, errors.New("row is not a JSON object")
 	}
-	return map[string]any{}, nil
+	// every materialization yields its own value: a serial number and a nested container of its own
+	vpMaterialized++
+	return map[string]any{"#": vpMaterialized, "nested": []any{vpMaterialized}}, nil
+}
+
+var vpMaterialized int
+
+// maps.Clone at the row type (harness-Go model of the generic library function: a shallow copy)
+func vpModel_maps_Clone(m map[string]any) map[string]any {
+	if m == nil {
+		return nil
+	}
+	out := make(map[string]any, len(m))
+	for k, v := range m {
+		out[k] = v
+	}
+	return out
 }
 
 //vp:override bs.readPooledBlockRowData=vpReadRowDataTracked
@@ -180,11 +196,22 @@ func H_C03_block_buffer_is_released_once_and_never_used_afterwards() {
 	if nondetBool() {
 		vpScanData = append(vpScanData, 9, 0)
 	}
-	vpReleased, vpUseAfterRe = 0, false
+	vpReleased, vpUseAfterRe, vpMaterialized = 0, false, 0
 	opened := false
 	job := dataBlockJob{filePointer: ptr, blockMetadata: DataBlockMetadata{RowDataOffset: 700, RowDataSize: 50, Rows: k}}
 	(&BloomSearchEngine{}).processDataBlock(r, slot, pool, job, &compiledRowMatcher{}, nil)
 	opened = w.count(evOpenOK, -1) > 0
+	// every delivered row comes from a materialization of its own (rows never share mutable state:
+	// identical stored rows are still parsed separately), in scan order
+	delivered := 0
+	for len(r.rowChan) > 0 {
+		for _, row := range <-r.rowChan {
+			delivered++
+			serial, _ := row["#"].(int)
+			vpAssert(serial == delivered, "C03: a delivered row is not the product of its own materialization (two returned rows share nested values, or a row was reordered / dropped)")
+		}
+	}
+	vpAssert(delivered <= vpMaterialized, "C03: more rows delivered than materialized")
 	vpAssert(!vpUseAfterRe, "C03: a row view of the block buffer was used after the buffer had been released")
 	vpAssert(vpReleased <= 1, "C03: the block buffer was released twice")
 	if opened && !vpReadFailedTracked() {
@@ -282,3 +309,6 @@ func (f *vpSparseFile) Read(p []byte) (int, error) {
 	return int(n), nil
 }
 func (f *vpSparseFile) Close() error { return nil }
+
+// bytes.Equal (harness-Go model: its own definition)
+func vpModel_bytes_Equal(a, b []byte) bool { return string(a) == string(b) }
